@@ -48,7 +48,10 @@ OPS = [(0, 0, b"k", b"v", 0, False, None), (0, 0, b"k", b"v", 0, True, None), (0
        (2, b"k", b"x", b"1", 0, False, None), (2, b"k", b"x", b"1", 0, True, None), (3, b"k", None), (4, b"k", None, None), (5, b"k", 9, None),
        (6, b"k", 9, None, None), (7, False, [b"a", b"k", b"zz"]), (8, False, [b"a", b"b"]), (9, b"k", False), (9, b"k", True), (10, False, [b"a", b"b"], False),
        (10, False, [b"a", b"b"], True), (11, b"n", 2, False), (11, b"n", 2, True), (12, b"k", 1, False), (13, b"k", 5, False), (13, b"k", 5, True),
-       (14, 0, False), (14, 0, True), (15,)]
+       (14, 0, False), (14, 0, True), (15,),
+       # noreply left to the client's default_noreply (both settings occur in the configurations below)
+       (0, 0, b"k", b"v", 0, None, None), (1, [(b"a", b"1"), (b"b", b"2")], 0, None, None), (9, b"k", None), (10, False, [b"a", b"b"], None),
+       (13, b"k", 5, None), (14, 0, None)]
 FOLLOW = [(3, b"k", b"dflt"), (9, b"j", False), (0, 0, b"j", b"z", 0, False, None), (11, b"n", 1, False)]
 PRE = [(0, 0, b"k", b"5", 0, False, None), (0, 0, b"n", b"10", 0, False, None), (0, 0, b"a", b"A", 0, False, None)]
 REPLY_FAULTS = ["error", "garbage", "truncate", "client_error", "line0_server_error", "line1_client_error"]
@@ -105,7 +108,7 @@ def cases(ctx):
     for ci, c in enumerate(cfgs):
         for oi, op in enumerate(OPS):
             for pi, (kind, sc, ch, k, rk) in enumerate(plans(ctx, rng)):
-                if ctx.quick and (ci + oi + pi) % 3:
+                if ctx.quick and pi and (ci + oi + pi) % 3:        # the fault-free plan (pi = 0) runs for every configuration and operation
                     continue
                 ops = PRE + [op] + [rng.choice(FOLLOW), rng.choice(FOLLOW)]
                 # segmentation of whatever is read: a few chunkings per case
